@@ -41,8 +41,29 @@ def arrays_equal(a, b):
         exact = bool(np.array_equal(a, b, equal_nan=True))
         close = exact or bool(np.allclose(a, b, rtol=1e-11, atol=1e-12, equal_nan=True))
         return exact, close
+    if a.dtype.kind == "O":
+        # object arrays (a frame with a wrong dtype evaluated without complaint) may hold float NaN next to
+        # strings: NaN must compare equal to NaN here as it does for float arrays
+        exact = objects_equal(a, b)
+        return exact, exact
     exact = bool(np.array_equal(a, b))
     return exact, exact
+
+
+def objects_equal(a, b):
+    """Element-wise equality of two equally shaped object arrays, NaN == NaN."""
+    for x, y in zip(a.ravel().tolist(), b.ravel().tolist()):
+        if x is y:
+            continue
+        try:
+            if x == y:
+                continue
+        except Exception:  # noqa: BLE001
+            return False
+        if isinstance(x, float) and isinstance(y, float) and x != x and y != y:
+            continue
+        return False
+    return True
 
 
 def compare_obs(a, b, path="", stats=None):
